@@ -1333,6 +1333,16 @@ class ProcessPoolExecutor(Executor):
                 executor_manager_thread.join()
                 _threads_wakeups.pop(executor_manager_thread, None)
 
+        if (
+            executor_manager_thread is not None
+            and executor_manager_thread.is_alive()
+        ):
+            # shutdown(wait=False): the executor manager thread is still
+            # draining the pending work and may need these objects to respawn
+            # workers that timed out. A later shutdown(wait=True) must also be
+            # able to join it. The manager thread closes the queues when done.
+            return
+
         # To reduce the risk of opening too many files, remove references to
         # objects that use file descriptors.
         self._executor_manager_thread = None
